@@ -9,6 +9,7 @@ bound replier or of the requestors. When the bound replier's stream ends it is u
 replier to register is bound (`adoptSock`).
 -/
 import SeliumModel.Lemmas.ReqRepMore
+import SeliumModel.Lemmas.ReqRepCause
 
 namespace Selium.Route
 open Selium.Sink
@@ -83,6 +84,14 @@ def exRace : List REvent :=
 example : ((rrExec exRace).rejected.map fun j => (j.n, j.sink.got)) = [(1, [rejectionFrame]), (2, [rejectionFrame])] ∧
     ((rrExec exRace).server.map (·.n)) = some 0 := by decide +kernel
 
+/-- "the bound replier's traffic is unaffected", for every history: the bound replier is let go of only when its own
+    stream has ended or its own sink has failed — not because a late replier registered, was turned away, or failed while
+    being turned away, and not because of anything a requestor did (the only other sockets dropped on the replier side are
+    the late repliers themselves, each after the rejection was sent or could not be sent) -/
+theorem c10_replier_let_go_only_for_cause (history : List REvent) (n k : Nat)
+    (h : REv.v n (.dropped k) ∈ (rrExec history).trace) : ∃ e ∈ (rrExec history).trace, causeOf n e :=
+  rrExec_justified history n k h
+
 end Selium.Route
 
 #print axioms Selium.Route.rejInv_init
@@ -91,3 +100,4 @@ end Selium.Route
 #print axioms Selium.Route.c10_rejected_told_exactly_that
 #print axioms Selium.Route.c10_bound_replier_unaffected
 #print axioms Selium.Route.c10_rebind
+#print axioms Selium.Route.c10_replier_let_go_only_for_cause
